@@ -11,6 +11,8 @@ QUICK_WORKERS = 4
 
 WORDS = ["a", "b", "c", "d", "e", "ab", "ba", "x1", "foo", "bar", "baz", "qux", "été", "über", "αβ", "γ",
          "中", "文字", "naïve", "_u", "w2w", "Zed", "k9", "да"]
+# parts of a name after the first may begin with a digit (`tier 2 rate`, `route 66`, `covid-19 cases`)
+DIGIT_WORDS = ["2", "66", "9x", "19", "007"]
 SYMS = [".", "/", "-", "'", "+", "*"]
 PRIMES = [2, 3, 5, 7, 11, 13, 17, 19, 23, 29, 31, 37, 41, 43, 47, 53, 59, 61, 67, 71, 73, 79, 83, 89, 97, 101, 103, 107, 109, 113]
 
@@ -68,6 +70,13 @@ def gen_names(src):
     if src.bool(0.5):
         fam.append([w[4], w[5]])
     fam.append([w[5]] if src.bool(0.5) else [w[4]])
+    if src.bool(0.5):
+        dw = src.choice(DIGIT_WORDS)
+        fam.append([w[0], dw])
+        if src.bool(0.5):
+            fam.append([w[0], dw, w[1]])
+        if src.bool(0.4):
+            fam.append([w[2], src.choice(["-", "/", "'"]), src.choice(DIGIT_WORDS)])
     # unique by normal form
     seen, names = set(), []
     for t in fam:
@@ -135,7 +144,7 @@ class T:
             for i in range(n):
                 if i > 0 and self.src.bool(0.2):
                     toks.append(self.src.choice(["-", "+", "*", "/", "'"]))
-                toks.append(self.src.choice(self.words + ["zz", "yy", "vv"]))
+                toks.append(self.src.choice(DIGIT_WORDS) if i > 0 and self.src.bool(0.12) else self.src.choice(self.words + ["zz", "yy", "vv"]))
             if nf(toks) not in self.bound and nf(toks) not in extra:
                 if decl and self.has_bound_prefix(toks, extra):
                     self.labels.append("declaration-with-bound-prefix")
